@@ -390,15 +390,19 @@ func (flogs *fileLogs) Append(dataID, version dvid.UUID, msg storage.LogMessage)
 		return fmt.Errorf("append log %q: %v", flogs, err)
 	}
 	fl.Lock()
+	dvid.VerifPoint("filelog.Append:before-header")
 	if err = fl.writeHeader(msg); err != nil {
 		fl.Unlock()
 		return fmt.Errorf("bad write of log header to data %s, uuid %s: %v", dataID, version, err)
 	}
+	dvid.VerifPoint("filelog.Append:between-header-and-payload")
 	if _, err = fl.Write(msg.Data); err != nil {
 		fl.Unlock()
 		return fmt.Errorf("append log %q: %v", flogs, err)
 	}
+	dvid.VerifPoint("filelog.Append:before-sync")
 	err = fl.Sync()
+	dvid.VerifPoint("filelog.Append:after-sync")
 	fl.Unlock()
 	if err != nil {
 		return fmt.Errorf("err on sync of append log %q: %v", flogs, err)
@@ -417,15 +421,19 @@ func (flogs *fileLogs) TopicAppend(topic string, msg storage.LogMessage) error {
 		return fmt.Errorf("append log %q: %v", flogs, err)
 	}
 	fl.Lock()
+	dvid.VerifPoint("filelog.Append:before-header")
 	if err = fl.writeHeader(msg); err != nil {
 		fl.Unlock()
 		return fmt.Errorf("bad write of log header to topic %q: %v", topic, err)
 	}
+	dvid.VerifPoint("filelog.Append:between-header-and-payload")
 	if _, err = fl.Write(msg.Data); err != nil {
 		fl.Unlock()
 		return fmt.Errorf("bad write to append log %q, topic %q: %v", flogs, topic, err)
 	}
+	dvid.VerifPoint("filelog.Append:before-sync")
 	err = fl.Sync()
+	dvid.VerifPoint("filelog.Append:after-sync")
 	fl.Unlock()
 	if err != nil {
 		return fmt.Errorf("err on sync of append log %q, topic %q: %v", flogs, topic, err)
